@@ -80,10 +80,8 @@ DataTable& DataTable::operator=(const DataTable& table)
   nRow_ = table.nRow_;
   nCol_ = table.nCol_;
   data_ = table.data_;
-  if (table.rowNames_.size())
-    rowNames_ = table.rowNames_;
-  if (table.colNames_.size())
-    colNames_ = table.colNames_;
+  rowNames_ = table.rowNames_;
+  colNames_ = table.colNames_;
   return *this;
 }
 
